@@ -527,6 +527,52 @@ def needsConversion (protoDomains : List String) (defaultImports : List Nat) (ta
    | [] => false
    | v :: vs => vs.foldl max v != target)
 
+/-- the default-domain versions among ALL `opset_import` entries of the inlined model, in their
+    order (`imp.version for imp in node.model.opset_import if imp.domain in ("", "ai.onnx")`) -/
+def defaultImports (imports : List (String × Nat)) : List Nat :=
+  (imports.filter fun i => i.1 == "" || i.1 == "ai.onnx").map (·.2)
+
+/-- `source_version`: the highest default-domain import, if there is one -/
+def sourceVersion (imports : List (String × Nat)) : Option Nat :=
+  match defaultImports imports with
+  | [] => none
+  | v :: vs => some (vs.foldl max v)
+
+/-- the decision of `adapt_inline` on the raw data: domains of the emitted top-level nodes, all
+    opset imports of the inlined model (every domain), target version of the default domain -/
+def needsConversionFull (protoDomains : List String) (imports : List (String × Nat)) (target : Nat) : Bool :=
+  needsConversion protoDomains (defaultImports imports) target
+
+/-- the source text `needsConversion` / `defaultImports` / `sourceVersion` / `adaptInline` transcribe
+    (normalised by `ast.unparse`); `Generated.InlineFacts.adaptShape` is re-extracted from `_adapt.py`
+    on every run and must be equal to it (`C08.generated_adapt_decision`): an added guard, another
+    source of the versions, a second `return protos`, a loop or helper inside `adapt_inline` is a
+    code path this model does not describe -/
+def adaptShapeModelled : List (String × String) := [
+  ("params", "node, protos, target_opsets, var_names, node_name"),
+  ("target_version", "target_opsets['']"),
+  ("source_version", "max({imp.version for imp in node.model.opset_import if imp.domain in ('', 'ai.onnx')}, default=target_version)"),
+  ("seen_domains", "{prot.domain for prot in protos}"),
+  ("keep-if", "not seen_domains & {'', 'ai.onnx'}"),
+  ("convert-if", "source_version != target_version"),
+  ("convert-call", "onnx.version_converter.convert_version(node.model, target_version)"),
+  ("return-unconverted", "line-order 0"),
+  ("return-unconverted", "line-order 1"),
+  ("returns", "3"),
+  ("loops-or-nested-defs", "0")]
+
+/-- what the model knows of class `_Inline` and of the writes on the node object: `pre_init` stores the
+    private copy, `graph` / `opset_req` read it, `infer_output_types` = `typeCheck` + declared output
+    types, `to_onnx` = `toOnnx`, `propagate_values` (C09's subject; no influence on the built model),
+    `adapt_inline` swaps and restores `model` (`swapIR`); nothing else is stored on the node - in
+    particular no cache of converted or renamed nodes (`Generated.InlineFacts.inlineMembers`,
+    `C08.generated_inline_members`) -/
+def inlineMembersModelled : List String := [
+  "attr:attrs", "attr:inputs", "attr:model", "attr:op_type=", "attr:outputs", "bases:_InternalNode",
+  "class:Attributes", "class:Inputs", "class:Outputs", "def:graph@property", "def:infer_output_types",
+  "def:opset_req@property", "def:pre_init", "def:propagate_values", "def:to_onnx",
+  "write:adapt_inline:model", "write:pre_init:model"]
+
 /-- `Scope.of((node, node_name), *var_names.items())`: every value name of the build, no reserved
     names, no counters -/
 def freshCtx (c : Ctx) (varNames : List String) : Ctx :=
